@@ -640,9 +640,81 @@ def run_rmblock(case, ctx):
     return {"model": [], "impl": [], "oracle": oracle, "tags": ["rmblock"], "key": "rmblock" + json.dumps(case, sort_keys=True)}
 
 
+def run_apiblock(case, ctx):
+    """Oracle-only family: inside a buffered block the program mixes document reads / writes through ONE handle per
+    job (made before the block) with library calls that look at job documents on their own (find_jobs with a document
+    filter, groupby on a document key, a state point search, len).  Whatever those calls do internally, the reads
+    through the user's handles and the files left on exit are those of the unbuffered run."""
+    import contextlib
+    import signac
+
+    def one(buffered):
+        d = ctx.fresh_dir("c05api")
+        try:
+            _reset_buffer_state()
+            p = signac.init_project(d)
+            jobs = []
+            for n in range(3):
+                j = p.open_job({"n": n}).init()
+                if n != 2:
+                    j.doc.update({"k": n, "cfg": {"q": [n]}})
+                jobs.append(j)
+            trace = []
+            res = "ok"
+            try:
+                with contextlib.ExitStack() as st:
+                    if buffered:
+                        st.enter_context(signac.buffered(case["cap"]) if case["cap"] is not None else signac.buffered())
+                    for stp in case["steps"]:
+                        if stp[0] == "read":
+                            trace.append(enc_val(plain_doc(jobs[stp[1]].doc())))
+                        elif stp[0] == "write":
+                            jobs[stp[1]].doc[stp[2]] = copy.deepcopy(stp[3])
+                        elif stp[0] == "search":
+                            kind = stp[1]
+                            if kind == "find-doc":
+                                list(p.find_jobs({"doc.k": {"$exists": True}}))
+                            elif kind == "find-doc-value":
+                                list(p.find_jobs({"doc.k": 1}))
+                            elif kind == "find-sp":
+                                list(p.find_jobs({"n": {"$gte": 1}}))
+                            elif kind == "groupby-doc":
+                                [(k, [x.id for x in g]) for k, g in p.groupby("doc.k", default=-1)]
+                            else:
+                                len(p)
+            except Exception as e:  # noqa: BLE001
+                res = exc_name(e)
+            files = {}
+            for rel in _listing(d):
+                with open(os.path.join(d, rel)) as f:
+                    files[rel] = f.read()
+            return res, trace, {k: (json.loads(v) if k.endswith(".json") else v) for k, v in files.items()}
+        finally:
+            _reset_buffer_state()
+            ctx.cleanup(d)
+
+    u, b = one(False), one(True)
+    oracle = []
+    if u != b:
+        what = "result" if u[0] != b[0] else "reads through the handles" if u[1] != b[1] else "files left on exit"
+        oracle.append("library calls inside a buffered block: the %s differ - buffered run: %s %s %s; unbuffered run: %s %s %s" % (
+            what, b[0], b[1], json.dumps(b[2], sort_keys=True)[:300], u[0], u[1], json.dumps(u[2], sort_keys=True)[:300]))
+    return {"model": [], "impl": [], "oracle": oracle, "tags": ["apiblock"], "key": "apiblock" + json.dumps(case, sort_keys=True)}
+
+
+def plain_doc(x):
+    if hasattr(x, "items"):
+        return {k: plain_doc(v) for k, v in x.items()}
+    if isinstance(x, (list, tuple)):
+        return [plain_doc(v) for v in x]
+    return x
+
+
 def run_case(case, ctx):
     if "rmblock" in case:
         return run_rmblock(case, ctx)
+    if "apiblock" in case:
+        return run_apiblock(case, ctx)
     cmds = case["cmds"]
     has_block = any(c.get("c") == "E" for c in cmds)
     runs = [Run(case, cmds, ctx, "as written").execute()]
@@ -739,7 +811,7 @@ def none_over_collection(case, result):
 
 
 def known_class(case, result):
-    if "rmblock" in case:
+    if "rmblock" in case or "apiblock" in case:
         return None
     multi = multi_object_files(case)
     noop = noop_on_absent_doc(case, result)
@@ -1134,8 +1206,28 @@ def rmblock_cases(rng, n):
         yield {"rmblock": 1, "jobs": jobs, "caps": [None] + ([None] if rng.random() < 0.3 else [])}
 
 
+def apiblock_cases(rng, n):
+    # (groupby on a document key is not in the list: it reads the documents through Job handles of its own, i.e.
+    # second handle objects of the same files inside the block - the recorded class F-5b of the dependency)
+    kinds = ["find-doc", "find-doc-value", "find-sp", "len"]
+    yield {"apiblock": 1, "cap": None, "steps": [["read", 0], ["search", "find-doc"], ["write", 0, "x", 1]]}
+    for _ in range(n):
+        steps = []
+        for _s in range(rng.choice([2, 3, 4, 6])):
+            r = rng.random()
+            if r < 0.35:
+                steps.append(["read", rng.randrange(3)])
+            elif r < 0.7:
+                steps.append(["write", rng.randrange(3), rng.choice(["x", "k", "cfg"]), rng.choice([1, 2, {"q": [7]}, "s", None])])
+            else:
+                steps.append(["search", rng.choice(kinds)])
+        yield {"apiblock": 1, "cap": rng.choice([None, None, 64]), "steps": steps}
+
+
 def generate(tier, rng):
     for c in rmblock_cases(rng, 40 if tier == "quick" else 400):
+        yield c
+    for c in apiblock_cases(rng, 60 if tier == "quick" else 600):
         yield c
     for c in exhaustive(tier):
         yield c
@@ -1155,6 +1247,11 @@ def search(rng, deadline):
 
 
 def shrink(case):
+    if "apiblock" in case:
+        for i in range(len(case["steps"])):
+            if len(case["steps"]) > 1:
+                yield dict(case, steps=case["steps"][:i] + case["steps"][i + 1:])
+        return
     if "rmblock" in case:
         for i in range(len(case["jobs"])):
             if len(case["jobs"]) > 1:
